@@ -923,10 +923,12 @@ func runDesc(m *mon.M, r *rand.Rand, d *Desc, regs []Reg, serve bool, only *Req)
 		return
 	}
 	m.Note("descriptions", 1)
+	// one crash marker per description (Validate is a function-level call; every variant is
+	// additionally isolated by mon.Catch), one per served API below
+	m.Begin(map[string]interface{}{"desc": d, "registration_sets": len(regs)})
 	for i := range regs {
 		g := &regs[i]
 		rec := &recorder{deny: map[string]bool{}}
-		m.Begin(&Case{Desc: *d, Reg: *g, Req: only})
 		api, ok := judgeValidate(m, d, doc, dhash, g, rec)
 		if !ok || api == nil {
 			continue
@@ -953,6 +955,7 @@ func runDesc(m *mon.M, r *rand.Rand, d *Desc, regs []Reg, serve bool, only *Req)
 			}
 			continue
 		}
+		m.Begin(&Case{Desc: *d, Reg: *g})
 		for idx := range d.Ops {
 			reqs, skipped := genRequests(r, d, g, idx)
 			if skipped != "" {
@@ -960,7 +963,6 @@ func runDesc(m *mon.M, r *rand.Rand, d *Desc, regs []Reg, serve bool, only *Req)
 				m.Class("serve:skipped/" + skipped)
 			}
 			for k := range reqs {
-				m.Begin(&Case{Desc: *d, Reg: *g, Req: &reqs[k]})
 				serveOne(m, d, g, h, rec, &reqs[k], dhash, nontrivial)
 			}
 		}
